@@ -338,7 +338,9 @@ struct Harness {
 		}
 		k += fmt("a%d", adds % 3);
 		// implementation snapshot: queue length, free-list length, both counters
+#ifndef VERIF_NO_PRIVATE
 		k += fmt("|I:%zu,%zu,%d,%d", listSize(q->queueList), listSize(q->freeList), (int)q->queueEmptyCounter.load(), (int)q->queueNotifyCounter.load());
+#endif
 		return k;
 	}
 
